@@ -219,15 +219,16 @@ def check_invariants(state, goal, ctxinfo, proxy, last_method, which=('I1', 'I2'
     stops at the first one that fails (the later ones would only restate the same damage).
     Returns [] or [(sig, oracle, detail)].  sig None = inconclusive (the solver answered `unknown`).
 
-    Signatures: I2/<method>; I3/numbering/<method>; I3/citation/<method>; I1/<failing rule>/<exception>/<kind>/<method>;
-    I4/<failing rule>/<exception>/<kind>/<method>; I5/... (see check_export_import).  <method> is the editing method
-    after which the state was judged.  States produced by revert_intro get the family signature <I>/after-revert_intro."""
+    Signatures: I2/<method>; I3/numbering/<method>; I3/citation/<method>; I1/<method>; I4/<method>;
+    I5/... (see check_export_import).  <method> is the editing method after which the state first fails."""
     from kernel.proof import ItemID
     lm = last_method or '-'
 
     def fam(oracle, sig):
-        if lm == 'revert_intro' and oracle in ('I1', 'I3', 'I4'):
-            return '%s/after-revert_intro' % oracle
+        # the editing method after which a state first fails is the call site that identifies the defect;
+        # the failing rule / exception vary with the proof at hand and go into the detail text only
+        if oracle in ('I1', 'I4'):
+            return '%s/%s' % (oracle, lm)
         return sig
     # I2 last line is the original sequent
     if 'I2' in which:
